@@ -304,7 +304,9 @@ func (p *textProgressBar) showProgress() {
 
 	percentage := "100%"
 	if p.fileSize != 0 {
-		percentage = fmt.Sprintf("%.0f%%", math.Round(float64(p.fileStep)*100.0/float64(p.fileSize)))
+		// a peer may acknowledge a step beyond the size or announce a negative size, keep the percentage in [0, 100]
+		percent := math.Round(float64(p.fileStep) * 100.0 / float64(p.fileSize))
+		percentage = fmt.Sprintf("%.0f%%", math.Max(0, math.Min(100, percent)))
 	}
 	total := convertSizeToString(float64(p.fileStep))
 	speed := p.recentSpeed.getSpeed(p.fileStep, &now)
@@ -407,7 +409,8 @@ func (p *textProgressBar) getProgressBar(length int) string {
 	totalSize := length - 2
 	fullSize := totalSize
 	if p.fileSize != 0 {
-		fullSize = int(math.Round((float64(totalSize) * float64(p.fileStep)) / float64(p.fileSize)))
+		full := math.Round((float64(totalSize) * float64(p.fileStep)) / float64(p.fileSize))
+		fullSize = int(math.Max(0, math.Min(float64(totalSize), full))) // never a negative repeat count
 	}
 	emptySize := totalSize - fullSize
 	if p.colorA == nil || p.colorB == nil {
